@@ -884,6 +884,7 @@ class Failure:
         self.unit, self.fn, self.kind, self.label = unit, fn, kind, label
         self.message, self.rendered, self.in_region, self.props = message, rendered, in_region, props
         self.panic = False
+        self.maybe_panic = False
 
     def obligation(self):
         return "%s::%s#%s" % (self.unit, self.fn, self.label or self.kind)
@@ -947,7 +948,11 @@ def classify(built, res, diags):
         # out of bounds, or the precondition of a std function (unwrap / expect / index / insert ...: the clause lives in vstd) or of
         # one of the unit's stand-ins for a panicking call
         callee = enclosing_fn(built, clause["line_start"]) if (clause is not None and clause.get("file_name") == built.path) else None
-        fl.panic = kind in ("arithmetic", "bounds") or (kind == "precondition" and clause is not None and (clause.get("file_name") != built.path or callee in PANIC_FNS))
+        # an operator on a type without an operator spec (vstd std_specs/ops.rs: add_req / mul_req ..) is an unsupported operation, not a
+        # known panic: undecided for C14, never an alarm
+        in_ops = clause is not None and str(clause.get("file_name", "")).endswith("std_specs/ops.rs")
+        fl.maybe_panic = kind == "precondition" and in_ops
+        fl.panic = kind in ("arithmetic", "bounds") or (kind == "precondition" and clause is not None and not in_ops and (clause.get("file_name") != built.path or callee in PANIC_FNS))
         failures.append(fl)
     return failures, hard, rlimits
 
